@@ -20,10 +20,11 @@ dB == 1000000
 km == 1000
 
 Blank(name, type) == [name |-> name, type |-> type, succ |-> {}, pred |-> {}, len |-> 0, coef |-> 0, variety |-> "",
-                      conIn |-> NONE, conOut |-> NONE, attIn |-> NONE, loss |-> 0, sub |-> <<>>, origin |-> "", coefTab |-> <<>>]
+                      conIn |-> NONE, conOut |-> NONE, attIn |-> NONE, loss |-> 0, sub |-> <<>>, origin |-> "", coefTab |-> <<>>, opt |-> ""]
 \* chain element descriptors
 F(l) == [t |-> "Fiber", len |-> l, k |-> "", att |-> 0, ci |-> NONE, co |-> NONE]
 FQ(l) == [F(l) EXCEPT !.k = "perfreq"]                 \* fibre whose loss coefficient is given per frequency
+FM(l) == [F(l) EXCEPT !.k = "pmd"]                     \* fibre with a user pmd_coef different from its library type
 FP(l, a) == [F(l) EXCEPT !.att = a]                     \* fibre with a user-set padding attenuator att_in
 FC(l, i, o) == [F(l) EXCEPT !.ci = i, !.co = o]         \* fibre that describes its connectors itself (NONE = left to the Span default)
 R(l) == [t |-> "RamanFiber", len |-> l, k |-> "", att |-> 0, ci |-> dB \div 2, co |-> dB \div 2]
@@ -32,11 +33,12 @@ A(k) == [t |-> "Edfa", len |-> 0, k |-> k, att |-> 0, ci |-> NONE, co |-> NONE]
 
 LossTable == <<<<191000000, 210>>, <<193500000, 200>>, <<196500000, 190>>>>       \* <<MHz, mdB/km>>
 UserSub(k) == IF k = "full" THEN [variety |-> "std_medium_gain", gain |-> 18 * dB, voa |-> dB, dp |-> dB]
+              ELSE IF k = "voa" THEN [variety |-> "", gain |-> NONE, voa |-> 3 * dB, dp |-> NONE]     \* only an output VOA set
               ELSE IF k = "partial" THEN [variety |-> "std_medium_gain", gain |-> NONE, voa |-> NONE, dp |-> NONE]
               ELSE NoSub
 Concrete(d, name) ==
     IF d.t = "Fiber" THEN [Blank(name, "Fiber") EXCEPT !.len = d.len, !.coef = 200, !.variety = "SSMF", !.attIn = d.att,
-                               !.conIn = d.ci, !.conOut = d.co, !.coefTab = IF d.k = "perfreq" THEN LossTable ELSE <<>>]
+                               !.conIn = d.ci, !.conOut = d.co, !.opt = IF d.k = "pmd" THEN "pmd" ELSE "", !.coefTab = IF d.k = "perfreq" THEN LossTable ELSE <<>>]
     ELSE IF d.t = "RamanFiber" THEN [Blank(name, "RamanFiber") EXCEPT !.len = d.len, !.coef = 200, !.variety = "SSMF",
                                         !.attIn = 0, !.conIn = dB \div 2, !.conOut = dB \div 2]
     ELSE IF d.t = "Fused" THEN [Blank(name, "Fused") EXCEPT !.loss = dB]
@@ -55,8 +57,12 @@ Padded == {<<FP(20 * km, 3 * dB)>>, <<FP(20 * km, 3 * dB), X, F(50)>>, <<FP(50, 
 DoubleSplice == {<<F(50), X, X, F(50)>>, <<F(20 * km), X, X, F(50)>>}
 \* one connector described by the topology, the other left to the Span default; both described
 OneConnector == {<<FC(80 * km, dB \div 2, NONE)>>, <<FC(20 * km, NONE, dB \div 4)>>, <<FC(50, dB \div 2, NONE), X, FC(20 * km, dB, dB)>>}
+\* user fibre parameters that only the export / reload round trip can lose (one of the fibres splits)
+UserParams == {<<FM(151 * km)>>, <<FM(20 * km), X, F(80 * km)>>}
+\* a user output VOA on an otherwise automatic amplifier, followed by two more amplifiers (the second fibre splits)
+UserVoa == {<<F(80 * km), A("voa"), F(151 * km)>>, <<F(20 * km), A("voa"), F(80 * km)>>}
 PerFreq == {<<FQ(151 * km)>>, <<FQ(20 * km), X, F(80 * km)>>}
-Chains == Plain \cup Spliced \cup WithAmp \cup Padded \cup PerFreq \cup DoubleSplice \cup OneConnector
+Chains == Plain \cup Spliced \cup WithAmp \cup Padded \cup PerFreq \cup DoubleSplice \cup OneConnector \cup UserParams \cup UserVoa
 \* representatives used where the full product would be too large
 Reps   == {<<F(50)>>, <<F(80 * km)>>, <<F(400 * km)>>, <<F(20 * km), X, F(50)>>, <<F(151 * km), X, F(80 * km)>>,
            <<F(20 * km), A("none"), F(80 * km)>>, <<F(151 * km), A("full"), F(20 * km)>>, <<F(80 * km), A("partial"), F(50)>>}
@@ -116,7 +122,7 @@ MCCases == {[g |-> x, s |-> s] : x \in Graphs, s \in AllSettings}
 
 \* B2: one line per enumerated case (printed for the initial state of its behaviour); the harness renders it as
 \* topology JSON + equipment overrides and runs the real designed_network
-Compact(e) == [n |-> e.name, t |-> e.type, l |-> e.len, c |-> e.coef, v |-> e.variety, ci |-> e.conIn, co |-> e.conOut, ai |-> e.attIn, ct |-> e.coefTab,
+Compact(e) == [n |-> e.name, t |-> e.type, l |-> e.len, c |-> e.coef, v |-> e.variety, ci |-> e.conIn, co |-> e.conOut, ai |-> e.attIn, ct |-> e.coefTab, o |-> e.opt,
                lo |-> e.loss, u |-> e.sub, s |-> e.succ]
 \* CONSTRAINT of the enumeration-only run (C17): keep the initial states, do not rewrite
 InitialOnly == phase = "split" /\ seen = {} /\ g = inp
